@@ -1,5 +1,6 @@
 (* Properties_C16.v — C16: save() reports failure whenever the output did not take the whole file. *)
-From ElfioV Require Import Bytes Mem Stream Stream_proofs SectionData Strings Elfio Table Loader Layout Writer.
+From ElfioV Require Import Bytes Mem Stream Stream_proofs SectionData Strings Elfio Table Loader Layout Writer
+     Ostream_proofs Layout_proofs Writer_proofs ByName_proofs Save_endtoend.
 Local Open Scope N_scope.
 
 (* What save() writes is a plan of (position, bytes) pairs executed on the
@@ -51,6 +52,40 @@ Print Assumptions C16_true_means_stream_good.
 Theorem C16_unopenable : forall junk el os, os_bad os = true -> exists r, save junk el os = Ok (fst r, snd r, false).
 Proof. intros junk el os H. exists (el, os). unfold save. now rewrite H. Qed.
 Print Assumptions C16_unopenable.
+
+(* THE FUNCTION save() ITSELF on a sink that accepts k bytes, for objects without segments (the class of
+   C03_save_without_segments_end_to_end): with [full] the stream an unlimited sink would end up with - when the
+   complete file fits, save() returns true and the sink holds exactly that file; when it does not fit, save() never
+   returns true, wherever in the sequence of writes the sink gave up *)
+Theorem C16_save_reports_failure_end_to_end :
+  forall junk el0 h0 bound k,
+    el_hdr el0 = Some h0 -> el_segs el0 = [] -> el_xlat el0 = [] -> el_compr el0 = false ->
+    Forall writable (el_secs el0) ->
+    bound <= 2 ^ 63 -> Forall (fun s => bound <= 2 ^ xw (s_cls s)) (el_secs el0) ->
+    e_ehsize h0 + budget (el_secs el0) + 16 < bound ->
+    exists el1 h',
+      layout el0 = Ok (el1, true) /\ el_hdr el1 = Some h' /\
+      (plan_small 0 (noseg_plan h' (el_secs el1)) ->
+       let full := exec_plan (new_ostream None) (noseg_plan h' (el_secs el1)) in
+       (os_len full <= k ->
+          exists os, save junk el0 (new_ostream (Some k)) = Ok (el1, os, true) /\ os_bytes os = os_bytes full) /\
+       (k < os_len full ->
+          forall el2 os, save junk el0 (new_ostream (Some k)) <> Ok (el2, os, true))).
+Proof. exact save_noseg_capped. Qed.
+Print Assumptions C16_save_reports_failure_end_to_end.
+
+(* evaluation (a test, not a theorem): a 144-byte file; a sink of 143 bytes makes save() return false, one of 144 true *)
+Definition ex_cap_secs : list section :=
+  map (fun s => with_load_flags s false true true)
+  [with_index (new_section C32) 0;
+   with_index (with_data (with_size (with_addralign (with_type (new_section C32) 1) 4) 5) (Some [1; 2; 3; 4; 5]) 5) 1].
+Definition ex_cap_el : elfio := with_secs (with_hdr (empty_elfio false) (Some (new_header C32 LSB))) ex_cap_secs.
+Example C16_save_example :
+  match save (fun _ => 0) ex_cap_el (new_ostream (Some 143)), save (fun _ => 0) ex_cap_el (new_ostream (Some 144)) with
+  | Ok (_, _, ok1), Ok (_, os2, ok2) => ok1 = false /\ ok2 = true /\ lenN (os_bytes os2) = 144
+  | _, _ => False
+  end.
+Proof. vm_compute. repeat split; reflexivity. Qed.
 
 Example C16_example :
   let p := [(0, [1; 2; 3; 4]); (8, [9; 9])] in
